@@ -547,4 +547,66 @@ theorem afterJsScript_id (s : Script) : afterJsScript s = s := by
     | cons f fs ih => simp [afterJsBody_id, ih]
   rw [this]
 
+theorem bodyLingo_afterLingoBody (stmts : List Node) (ind : Nat) : bodyLingo (afterLingoBody stmts) ind = bodyLingo stmts ind :=
+  body_lingo_afterLingo stmts ind
+
+theorem bodyJs_afterLingoBody (stmts : List Node) (ind : Nat) : bodyJs (afterLingoBody stmts) ind = bodyJs stmts ind :=
+  body_js_afterLingo stmts true ind
+
+theorem funcLingo_afterLingoFunc (s s' : Script) (f : FuncDef) (hp : s'.properties = s.properties) (hg : s'.globalVars = s.globalVars) :
+    funcLingo s' (afterLingoFunc f) = funcLingo s f := by
+  simp only [funcLingo, afterLingoFunc, sortedByName_idem, bodyLingo_afterLingoBody, hp, hg]
+  try rfl
+
+theorem funcsLingo_afterLingo (s s' : Script) (hp : s'.properties = s.properties) (hg : s'.globalVars = s.globalVars) :
+    ∀ (fs : List FuncDef) (first : Bool), funcsLingo s' (fs.map afterLingoFunc) first = funcsLingo s fs first
+  | [], first => by simp [funcsLingo]
+  | f :: fs, first => by
+    simp [funcsLingo, funcLingo_afterLingoFunc s s' f hp hg, funcsLingo_afterLingo s s' hp hg fs false]
+
+/-- Lingo after Lingo: the second text is the first -/
+theorem lingoText_afterLingoScript (s : Script) : lingoText (afterLingoScript s) = lingoText s := by
+  simp only [lingoText, afterLingoScript]
+  rw [funcsLingo_afterLingo s { s with functions := s.functions.map afterLingoFunc } rfl rfl]
+  try rfl
+
+theorem jsParams_afterLingoFunc (f : FuncDef) (b : Bool) : jsParams (afterLingoFunc f) b = jsParams f b := by
+  simp [jsParams, afterLingoFunc]
+
+theorem jsLocals_afterLingoFunc (f : FuncDef) (n : Nat) : jsLocals (afterLingoFunc f) n = jsLocals f n := by
+  simp [jsLocals, afterLingoFunc]
+
+theorem jsMethod_afterLingoFunc (f : FuncDef) : jsMethod (afterLingoFunc f) = jsMethod f := by
+  simp only [jsMethod, jsParams_afterLingoFunc, jsLocals_afterLingoFunc]
+  simp [afterLingoFunc, bodyJs_afterLingoBody]
+  try rfl
+
+theorem jsMethods_afterLingo : ∀ fs : List FuncDef, jsMethods (fs.map afterLingoFunc) = jsMethods fs
+  | [] => by simp [jsMethods]
+  | f :: fs => by simp [jsMethods, jsMethod_afterLingoFunc, jsMethods_afterLingo fs]
+
+theorem commonFuncJs_afterLingoFunc (f : FuncDef) : commonFuncJs (afterLingoFunc f) = commonFuncJs f := by
+  simp only [commonFuncJs, jsParams_afterLingoFunc, jsLocals_afterLingoFunc]
+  simp [afterLingoFunc, bodyJs_afterLingoBody]
+  try rfl
+
+theorem commonFuncsJs_afterLingo : ∀ (fs : List FuncDef) (first : Bool), commonFuncsJs (fs.map afterLingoFunc) first = commonFuncsJs fs first
+  | [], first => by simp [commonFuncsJs]
+  | f :: fs, first => by simp [commonFuncsJs, commonFuncJs_afterLingoFunc, commonFuncsJs_afterLingo fs false]
+
+theorem wrappers_afterLingo (fs : List FuncDef) :
+    ((fs.map afterLingoFunc).map fun f =>
+      if inBirth f.name then [] else
+        S "function " ++ f.name ++ S "(obj, ...args) {\n" ++ indentOf 1 ++ S "return obj." ++ f.name ++ S "(...args);\n" ++ S "}\n") =
+    (fs.map fun f =>
+      if inBirth f.name then [] else
+        S "function " ++ f.name ++ S "(obj, ...args) {\n" ++ indentOf 1 ++ S "return obj." ++ f.name ++ S "(...args);\n" ++ S "}\n") := by
+  induction fs with
+  | nil => rfl
+  | cons f fs ih => simp [afterLingoFunc]
+
+/-- JavaScript after Lingo is the JavaScript of the fresh tree -/
+theorem jsText_afterLingoScript (s : Script) : jsText (afterLingoScript s) = jsText s := by
+  simp only [jsText, afterLingoScript, classJs, factoryJs, jsMethods_afterLingo, commonFuncsJs_afterLingo, wrappers_afterLingo]
+
 end Drx.Lscr
